@@ -52,7 +52,8 @@ def motion(rng, with_count=True):
     c = count(rng) if with_count else ""
     if r < 0.2:
         return c + rng.choice("ftFT") + rng.choice(CHARS)
-    return c + rng.choice(MOTIONS0)
+    m = rng.choice(MOTIONS0)
+    return m if m == "0" else c + m      # a count before 0 would be a bigger count
 
 
 def textobj(rng):
